@@ -33,7 +33,16 @@ pub(crate) struct GFile {
     pub n_open: u8,
     /// event stamp of the last successful sync
     pub last_sync_stamp: u16,
-    pub bytes: [u8; FBYTES],
+}
+
+/// File contents, kept apart from the bookkeeping struct: an update of
+/// `files[slot].len` with a symbolic slot would otherwise drag 4 x 96 bytes
+/// through every array-update expression of the formula.
+pub(crate) static mut BYTES: [[u8; FBYTES]; NFILES] = [[0; FBYTES]; NFILES];
+
+#[allow(static_mut_refs)]
+pub(crate) fn bytes(slot: usize) -> &'static mut [u8; FBYTES] {
+    unsafe { &mut BYTES[slot] }
 }
 
 pub(crate) const GFILE0: GFile = GFile {
@@ -49,7 +58,6 @@ pub(crate) const GFILE0: GFile = GFile {
     n_set_len: 0,
     n_open: 0,
     last_sync_stamp: 0,
-    bytes: [0; FBYTES],
 };
 
 pub(crate) struct GFs {
@@ -261,7 +269,7 @@ pub(crate) fn op_write(slot: usize, buf: &[u8]) -> io::Result<usize> {
                 kani::assume(false);
                 break;
             }
-            f.bytes[p] = buf[i];
+            bytes(slot)[p] = buf[i];
             i += 1;
         }
     }
@@ -298,7 +306,7 @@ pub(crate) fn op_set_len(slot: usize, size: u64) -> io::Result<()> {
         let mut i = 0;
         while i < FBYTES {
             if (i as u64) >= f.len && (i as u64) < size {
-                f.bytes[i] = 0;
+                bytes(slot)[i] = 0;
             }
             i += 1;
         }
@@ -329,7 +337,7 @@ pub(crate) fn op_read(slot: usize, buf: &mut [u8]) -> io::Result<usize> {
             kani::assume(false);
             break;
         }
-        buf[i] = f.bytes[p];
+        buf[i] = bytes(slot)[p];
         i += 1;
     }
     f.pos += n as u64;
@@ -349,7 +357,7 @@ pub(crate) fn op_read_at(slot: usize, buf: &mut [u8], offset: u64) -> io::Result
             kani::assume(false);
             break;
         }
-        buf[i] = f.bytes[p];
+        buf[i] = bytes(slot)[p];
         i += 1;
     }
     Ok(n)
